@@ -6,7 +6,7 @@ sys.path.insert(0, os.path.join(ROOT, 'tools'))
 from mutants import MUTANTS
 
 res = {}
-p = os.path.join(ROOT, 'out', 'mutants_results.txt')
+p = os.path.join(ROOT, 'docs', 'mutants_results.txt')
 if os.path.exists(p):
     for line in open(p):
         m = re.match(r'(\S+)\s+(CAUGHT by (\S+)|MISSED)\s+(\{.*)', line)
